@@ -85,7 +85,7 @@ void NextOp<R>::start() noexcept {
   if (!stopped && s_.next_ < s_.n_) {
     int v = s_.next_++;
     c.next_completed++;
-    unifex::set_value(std::move(r_), v);
+    unifex::set_value(std::move(r_), static_cast<int>(v));  // prvalue, as range_stream does
   } else {
     c.next_completed++;
     unifex::set_done(std::move(r_));
